@@ -125,6 +125,56 @@ theorem no_undecorated_configs : undecoratedConfigs = [] := by decide
 
 example : modelInits.length ≥ 15 := by decide +kernel
 
+/-! ## registered names beyond the shipped files -/
+
+/-- every model class under `direct/nn` with a config class is reachable by its `model_name`, has its config class where
+`load_model_config_from_name` looks, and — when it is an MRI model — its default engine where `setup_engine` looks -/
+theorem all_registered_models_resolve : ∀ m ∈ registeredModels, modelRegistered tables m = true := by decide +kernel
+
+/-- every (concrete) engine class under `direct/nn` lives where `setup_engine` can find it -/
+theorem all_registered_engines_reachable : ∀ e ∈ registeredEngines, engineReachable tables e = true := by decide +kernel
+
+/-- every dataset class `build_dataset` can construct has its config class -/
+theorem all_registered_datasets_resolve : ∀ d ∈ registeredDatasets, datasetRegistered tables d = true := by decide +kernel
+
+theorem all_registered_mask_functions_resolve : ∀ m ∈ registeredMaskFuncs, maskFuncRegistered tables m = true := by
+  decide +kernel
+
+/-- every `TransformsType` member can be written in a configuration -/
+theorem all_transforms_types_accepted :
+    ∀ n ∈ transformsTypes, transformsTypeAccepted transformSchema kTransformsType n = true := by decide +kernel
+
+/-- every metric / regularizer named in a shipped file is a function of `direct.functionals`, every loss named in a shipped
+file is one `MRIModelEngine.build_loss` knows -/
+theorem all_referenced_functionals_resolve :
+    (∀ f ∈ referencedFunctionals, functionalResolves tables f = true) ∧
+    (∀ l ∈ referencedLosses, l ∈ permissibleLosses) := by decide +kernel
+
+/-- **all registered names resolve** (the six statements above as one) -/
+theorem all_registered_names_resolve :
+    (∀ m ∈ registeredModels, modelRegistered tables m = true) ∧
+    (∀ e ∈ registeredEngines, engineReachable tables e = true) ∧
+    (∀ d ∈ registeredDatasets, datasetRegistered tables d = true) ∧
+    (∀ m ∈ registeredMaskFuncs, maskFuncRegistered tables m = true) ∧
+    (∀ n ∈ transformsTypes, transformsTypeAccepted transformSchema kTransformsType n = true) ∧
+    (∀ f ∈ referencedFunctionals, functionalResolves tables f = true) ∧
+    (∀ l ∈ referencedLosses, l ∈ permissibleLosses) :=
+  ⟨all_registered_models_resolve, all_registered_engines_reachable, all_registered_datasets_resolve,
+   all_registered_mask_functions_resolve, all_transforms_types_accepted, all_referenced_functionals_resolve.1,
+   all_referenced_functionals_resolve.2⟩
+
+/-- non-vacuity -/
+example : registeredModels.length ≥ 15 ∧ registeredEngines.length ≥ 15 ∧ registeredDatasets.length ≥ 5 ∧
+    registeredMaskFuncs.length ≥ 15 ∧ transformsTypes.length ≥ 2 ∧ referencedFunctionals.length ≥ 3 ∧
+    referencedLosses.length ≥ 3 := by decide +kernel
+
+/-- the source scan behind `no_instance_defaults` / `no_undecorated_configs` covers the whole configuration layer -/
+theorem scan_covers_config_layer :
+    ((["direct/config/defaults.py", "direct/data/datasets_config.py", "direct/common/subsample_config.py",
+       "direct/nn/unet/config.py", "direct/nn/vsharp/config.py"].map ofString).all
+        fun f => scannedSources.contains f) = true ∧
+    scannedSources.length ≥ 20 := by decide +kernel
+
 /-! ## the checker is specified, not just run (proved in `Lemmas/C20Validate.lean`) -/
 
 /-- an undeclared key is always rejected, wherever it stands -/
